@@ -9,6 +9,7 @@ pub const HIST_SIZES: [usize; 10] = [0, 1, 2, 3, 5, 8, 13, 16, 33, 64];
 /// the ten-symbol alphabet of DESIGN §6 plus the letters of `help`
 pub const SIGMA: [&str; 13] = ["a", "b", "h", "-", " ", "\"", "\\", "é", "€", "𐍈", "e", "l", "p"];
 pub const SIGMA_W: [usize; 13] = [14, 12, 8, 8, 12, 5, 3, 8, 7, 7, 3, 3, 3];
+pub const CSI_LOOKALIKES: [&str; 9] = ["[", "[", "A", "D", "1", ";", "~", "O", "]"];
 pub const POOL: [&str; 8] = ["a", "b", "ab", "é", "abc", "a b", "€ 𐍈", "abba -h"];
 pub const HELP_POOL: [&str; 8] = ["help", "help ab", "ab x --help", "b -h", "help ha take", "help nope", "ba 1 -h", "help -x"];
 
@@ -170,7 +171,16 @@ pub fn gen_motif(rng: &mut Rng, p: &Profile, dict: &[String], cmd: usize) -> Vec
                 out.push(l.as_bytes().to_vec());
                 out.push(enter_bytes(rng));
             }
-            if rng.chance(60) {
+            if rng.chance(25) {
+                // the very line the recall is going to show is typed again, cursor moved inside
+                let last = *rng.pick(&["é", "éé", "a€b", "ab", "abc"]);
+                out.push(last.as_bytes().to_vec());
+                out.push(enter_bytes(rng));
+                out.push(last.as_bytes().to_vec());
+                for _ in 0..rng.range(1, 2) {
+                    out.push(LEFT.to_vec());
+                }
+            } else if rng.chance(60) {
                 // something else is on the line when the recall happens
                 for _ in 0..rng.range(1, 5) {
                     out.push(SIGMA[rng.weighted(&SIGMA_W)].as_bytes().to_vec());
@@ -280,7 +290,8 @@ pub fn gen_session(rng: &mut Rng, p: &Profile) -> (SessionCfg, Vec<Op>) {
     for _ in 0..nkeys {
         match rng.weighted(&weights) {
             0 => {
-                let s = SIGMA[rng.weighted(&SIGMA_W)];
+                // now and then a character that also occurs inside escape sequences
+                let s = if rng.chance(7) { *rng.pick(&CSI_LOOKALIKES) } else { SIGMA[rng.weighted(&SIGMA_W)] };
                 push_bytes(&mut ops, rng, s.as_bytes());
             }
             1 => {
